@@ -137,22 +137,22 @@ package gabi
 //@   assert at common.HashCommit flag: $1 == issig
 
 //@ # representation invariant of the memoised range-proof structures: absent, or one structure for every carried range proof
-//@ pred rangecache(p, pk) := p.cachedRangeStructures != nil ==> (forall idx in dom(p.RangeProofs) :: in(p.cachedRangeStructures, idx)) && (forall idx in dom(p.cachedRangeStructures) :: in(p.RangeProofs, idx) && len(p.cachedRangeStructures[idx]) == len(p.RangeProofs[idx]) && forall i in 0..len(p.cachedRangeStructures[idx]) :: p.cachedRangeStructures[idx][i] != nil && p.cachedRangeStructures[idx][i].index == idx && p.cachedRangeStructures[idx][i].ld <= pk.Params.Lm)
+//@ pred rangecache(p, pk) := p.cachedRangeStructures != nil ==> (forall idx in dom(p.RangeProofs) :: in(p.cachedRangeStructures, idx)) && (forall idx in dom(p.cachedRangeStructures) :: in(p.RangeProofs, idx) && len(p.cachedRangeStructures[idx]) == len(p.RangeProofs[idx]) && forall i in 0..len(p.cachedRangeStructures[idx]) :: p.cachedRangeStructures[idx][i] != nil && p.cachedRangeStructures[idx][i].index == idx && p.cachedRangeStructures[idx][i].ld <= pk.Params.Lm && p.cachedRangeStructures[idx][i].k != nil)
 
 //@ func (*ProofD).reconstructRangeProofStructures
 //@   property C12 C08
 //@   requires p != nil && wfpk(pk) && rangepresent(p)
-//@   ensures ok: err == nil ==> p.cachedRangeStructures != nil && forall idx in dom(p.cachedRangeStructures) :: in(p.RangeProofs, idx) && len(p.cachedRangeStructures[idx]) == len(p.RangeProofs[idx]) && forall i in 0..len(p.cachedRangeStructures[idx]) :: p.cachedRangeStructures[idx][i] != nil && p.cachedRangeStructures[idx][i].index == idx && p.cachedRangeStructures[idx][i].ld <= pk.Params.Lm
+//@   ensures ok: err == nil ==> p.cachedRangeStructures != nil && forall idx in dom(p.cachedRangeStructures) :: in(p.RangeProofs, idx) && len(p.cachedRangeStructures[idx]) == len(p.RangeProofs[idx]) && forall i in 0..len(p.cachedRangeStructures[idx]) :: p.cachedRangeStructures[idx][i] != nil && p.cachedRangeStructures[idx][i].index == idx && p.cachedRangeStructures[idx][i].ld <= pk.Params.Lm && p.cachedRangeStructures[idx][i].k != nil
 //@   ensures complete: err == nil ==> forall idx in dom(p.RangeProofs) :: in(p.cachedRangeStructures, idx)
 //@   ensures fail: err != nil ==> p.cachedRangeStructures == old(p.cachedRangeStructures)
 //@   modifies p.cachedRangeStructures
 //@   assert at ExtractStructure index: $1 == index
 //@   loop 0 invariant structures != nil && fresh(structures)
 //@   loop 0 invariant forall idx in dom(p.RangeProofs) :: seen(idx) ==> in(structures, idx)
-//@   loop 0 invariant forall idx in dom(structures) :: in(p.RangeProofs, idx) && len(structures[idx]) == len(p.RangeProofs[idx]) && forall i in 0..len(structures[idx]) :: structures[idx][i] != nil && structures[idx][i].index == idx && structures[idx][i].ld <= pk.Params.Lm
+//@   loop 0 invariant forall idx in dom(structures) :: in(p.RangeProofs, idx) && len(structures[idx]) == len(p.RangeProofs[idx]) && forall i in 0..len(structures[idx]) :: structures[idx][i] != nil && structures[idx][i].index == idx && structures[idx][i].ld <= pk.Params.Lm && structures[idx][i].k != nil
 //@   loop 0 modifies mapof(structures), onlyfresh("rangeproof.ProofStructure")
 //@   loop 1 invariant structures != nil && fresh(structures) && in(structures, index) && in(p.RangeProofs, index) && 0 <= $i && $i <= len(proofs) && len(structures[index]) == $i
-//@   loop 1 invariant forall j in 0..$i :: structures[index][j] != nil && structures[index][j].index == index && structures[index][j].ld <= pk.Params.Lm
+//@   loop 1 invariant forall j in 0..$i :: structures[index][j] != nil && structures[index][j].index == index && structures[index][j].ld <= pk.Params.Lm && structures[index][j].k != nil
 //@   loop 1 invariant forall idx in dom(structures) :: idx != index ==> in(p.RangeProofs, idx) && len(structures[idx]) == len(p.RangeProofs[idx])
 //@   loop 1 invariant forall idx in dom(p.RangeProofs) :: seen(idx) ==> in(structures, idx)
 //@   loop 1 modifies elems(structures[index])
